@@ -14,9 +14,11 @@ vars == <<a, b, r, pc>>
 
 Nums == {NumG(k, i) : k \in KindSet, i \in 1..NP} 
 NumVals == {v \in Nums : Repr(v.kind, v.p)}
-\* "", "1", "1.5", "10", "9", "-1", "a", "1e", "128", "-", "1.50"
+\* "", "1", "1.5", "10", "9", "-1", "a", "1e", "128", "-", "1.50", and the two %v texts of 2147483647 (as an integer
+\* kind and as a float kind): a number compares with a string by the text of ITS OWN kind
 StrVals == {StrG(c) : c \in {<<>>, <<49>>, <<49, 46, 53>>, <<49, 48>>, <<57>>, <<45, 49>>, <<97>>, <<49, 101>>,
-                             <<49, 50, 56>>, <<45>>, <<49, 46, 53, 48>>}}
+                             <<49, 50, 56>>, <<45>>, <<49, 46, 53, 48>>,
+                             Points[Idx("2147483647")].itxt, Points[Idx("2147483647")].ftxt}}
 Vals == NumVals \cup StrVals
 
 Init == a \in Vals /\ b \in Vals /\ r = 2 /\ pc = "start"
@@ -35,7 +37,11 @@ Transitive ==
         \A c \in Vals : (SameKind(b, c) /\ CodeCmp(b, c) <= 0) => CodeCmp(a, c) <= 0
 \* equal numbers are interchangeable: cmp(a, c) = cmp(b, c) for every c of the same kind class
 Congruent ==
-    (Done /\ SameKind(a, b) /\ r = 0) => \A c \in Vals : CodeCmp(a, c) = CodeCmp(b, c)
+    (Done /\ SameKind(a, b) /\ r = 0) => \A c \in Vals : SameKind(a, c) => CodeCmp(a, c) = CodeCmp(b, c)
+\* the text a number is compared by is that of its kind: an integer kind meets its plain digits, a float kind its %v form
+OwnText == (Done /\ IsG(a)) =>
+              /\ CodeCmp(a, StrG(GText(a))) = 0
+              /\ (~IsG(b) /\ b.c # GText(a)) => r # 0
 \* the examples of the statement
 Examples ==
     /\ CodeCmp(NumG("int", Idx("1")), NumG("float64", Idx("1.5"))) = -1
